@@ -4,7 +4,14 @@ proof : lean/GeosModel/Props/C06.lean
           CORE (FULL)  fillet_step_bound & co.  — segment count / angular step of addDirectedFillet, exact supremum 1.5 quanta
           CORE (FULL)  params_*                 — parameter normalisation of the C API entry points, totality, exact rejection conditions
           SPEC         d2Seg_exact, cos table soundness — the oracle's distance formula and tolerance table are exact / safe
-tie   : stream fillet  — raw offset curves of two-segment lines: number of arc vertices vs the Lean fillet model
+        CORE (FULL)  Props/C06Rings.lean: assemble_covers_result & co. — the ring assembly (linkResultDirectedEdges, MaximalEdgeRing,
+                     linkMinimalDirectedEdges, buildMinimalRings) loses no result edge and builds closed walks only
+tie   : stream rings   — MaximalEdgeRing / MinimalEdgeRing called directly, and PolygonBuilder, on noded lattice arrangements whose
+                         rings touch in single vertices, vs Model/Buffer/Rings.lean (directed-edge cycles + shell / hole flag)
+        stream contact — as `buffer`, on inputs whose buffer OUTLINE TOUCHES ITSELF in single noded vertices for the chosen distance
+                         (valid polygons with holes touching the shell / each other, distance 0; lattice-exact inputs with a
+                         half-integer distance, e.g. grid points buffered by half the grid spacing)
+        stream fillet  — raw offset curves of two-segment lines: number of arc vertices vs the Lean fillet model
         stream params  — accept/reject, stored and effective parameters through every C API entry point vs the Lean model
         stream buffer  — generated valid inputs through GEOSBuffer / WithStyle / WithParams / OffsetCurve / SingleSidedBuffer;
                          the driver evaluates the exact distance specification at exact rational sample locations and decides
@@ -16,7 +23,7 @@ import verif, gtok
 from verif import log
 
 LEVEL = "proof"
-PROPS = ["GeosModel.Props.C06"]
+PROPS = ["GeosModel.Props.C06", "GeosModel.Props.C06Rings"]
 DRV = "drv_c06"
 
 
@@ -44,9 +51,12 @@ def fields(verdict):
 
 
 def stab_through_vertex(tokline):
-    """Polygonal input: does the horizontal ray to the right of the rightmost vertex of some ring pass exactly through a VERTEX of
-    another ring (same y bit pattern, larger x)?  That is the degenerate configuration of SubgraphDepthLocater's stabbing line
-    (depth of a ring subgraph taken from the nearest stabbed segment), which is exact only for vertex-free hits."""
+    """Polygonal input: does the horizontal ray to the right of the rightmost vertex of some CONNECTED COMPONENT of rings pass
+    exactly through a VERTEX of another component (same y bit pattern, larger x)?  Rings that share a point (a common vertex, or a
+    vertex of one on a segment of the other) are one component: they are one subgraph of the buffer's planar graph, and
+    SubgraphDepthLocater's stabbing line — whose depth of the nearest stabbed segment is exact only for vertex-free hits — starts
+    at the rightmost coordinate of a SUBGRAPH."""
+    from fractions import Fraction
     try:
         g = gtok.parse(tokline)[1]
     except Exception:
@@ -62,13 +72,38 @@ def stab_through_vertex(tokline):
             for x in e[1]:
                 walk(x)
     walk(g)
-    for i, r in enumerate(rings):
-        mx = max(p[0] for p in r)
-        for (x, y) in r:
+    n = len(rings)
+    comp = list(range(n))
+    def find(i):
+        while comp[i] != i:
+            comp[i] = comp[comp[i]]
+            i = comp[i]
+        return i
+    def on_ring(p, r):
+        px, py = Fraction(p[0]), Fraction(p[1])
+        for (a, b) in zip(r, r[1:]):
+            if p == a or p == b:
+                return True
+            ax, ay, bx, by = Fraction(a[0]), Fraction(a[1]), Fraction(b[0]), Fraction(b[1])
+            if (bx - ax) * (py - ay) == (by - ay) * (px - ax) and min(ax, bx) <= px <= max(ax, bx) and min(ay, by) <= py <= max(ay, by):
+                return True
+        return False
+    if n <= 40:
+        for i in range(n):
+            for j in range(n):
+                if i != j and find(i) != find(j) and any(on_ring(p, rings[j]) for p in rings[i]):
+                    comp[find(i)] = find(j)
+    groups = {}
+    for i in range(n):
+        groups.setdefault(find(i), []).append(i)
+    for c, members in groups.items():
+        pts = [p for i in members for p in rings[i]]
+        mx = max(p[0] for p in pts)
+        for (x, y) in pts:
             if x != mx:
                 continue
-            for j, r2 in enumerate(rings):
-                if j != i and any(y2 == y and x2 > x for (x2, y2) in r2):
+            for c2, m2 in groups.items():
+                if c2 != c and any(y2 == y and x2 > x for j in m2 for (x2, y2) in rings[j]):
                     return True
     return False
 
@@ -83,6 +118,8 @@ def signature(case, verdict):
                       than (1+1e-6)|d| from the boundary is missing);   zero = distance 0
       tier  : doc   = only the documented bound is missed; the bound that follows from the fillet step (cos(3 pi / 8q),
                       fillet_step_bound) resp. the input-simplification allowance (1.01 d) still holds;  gross = even that is missed
+      stabThroughVertex : (tier gross) the stabbing ray of SubgraphDepthLocater from the rightmost vertex of one CONNECTED COMPONENT of
+              input rings passes exactly through a vertex of another component (rings sharing a point are one subgraph)
       qle5  : (band e) quadrant segments <= 5, where e(q) is smaller than the real chord error
       dTiny : (band exact, tier doc) |d| is below 2^-20 of the largest coordinate, where BufferOp's precision ladder is coarser than 1e-6 d
       selfCrossingRing: the input contains a CLOSED LineString that crosses / retraces itself (buffered as a ring by
@@ -250,6 +287,38 @@ def run_stats(ctx, n_shards):
     return tot
 
 
+def report_buffer_disagreements(ctx, exe, stream, first, seen, state):
+    """one violation per structural signature; `seen` is shared between the streams that use the buffer case format"""
+    found_input = False
+    for idx, case, exp, got in all_disagreements(ctx, stream, first):
+        if not got.startswith("bad"):
+            if "tie" not in seen:
+                seen.append("tie")
+                ctx.violation("driver could not evaluate a buffer case: %s" % got[:200], {"kind": "tie-broken", "correspondence": stream, "case": case[:2000], "driver": got}, nofail=True)
+            continue
+        sig0 = signature(case, got)
+        if sig0 in seen:
+            continue
+        seen.append(sig0)
+        best_case, best_v = case, got
+        is_known = any(k.get("signature") == sig0 for k in ctx.known)
+        if not is_known and state["shrunk"] < 6 and fields(got)["clause"] not in ("null",):
+            tin, v, c2 = shrink(exe, case, got)
+            best_case, best_v = c2, v
+            state["shrunk"] += 1
+        sig = signature(best_case, best_v)
+        if sig != sig0 and sig in seen:
+            continue
+        if sig != sig0:
+            seen.append(sig)
+        p = parts_of(best_case)
+        if ctx.violation("buffer result contradicts the distance specification: %s  [%s]" % (best_v[:160], json.dumps(sig, sort_keys=True)),
+                         dict({"kind": "failing-input", "stream": stream, "case": "B | %s | %s" % (p[1], p[2]), "signature": sig}, **describe(best_case, best_v)),
+                         signature=sig):
+            found_input = True
+    return found_input
+
+
 def run(ctx):
     ctx.base_trust([
         "C06 is claimed at SPEC+C strength: the universal quantifier over LOCATIONS is sampled (about 200 exact rational locations per buffer: "
@@ -373,38 +442,63 @@ def run(ctx):
         except Exception as ex:          # statistics only
             corr["buffer"]["sample_locations"] = {"error": repr(ex)}
     seen = []
-    shrunk = 0
-    for idx, case, exp, got in all_disagreements(ctx, "buffer", r["disagreements"]):
-        if not got.startswith("bad"):
-            if "tie" not in seen:
-                seen.append("tie")
-                ctx.violation("driver could not evaluate a buffer case: %s" % got[:200], {"kind": "tie-broken", "correspondence": "buffer", "case": case[:2000], "driver": got}, nofail=True)
-            continue
-        sig0 = signature(case, got)
-        if sig0 in seen:
-            continue
-        seen.append(sig0)
-        best_case, best_v = case, got
-        is_known = any(k.get("signature") == sig0 for k in ctx.known)
-        if not is_known and shrunk < 6 and fields(got)["clause"] not in ("null",):
-            tin, v, c2 = shrink(exe, case, got)
-            best_case, best_v = c2, v
-            shrunk += 1
-        sig = signature(best_case, best_v)
-        if sig != sig0 and sig in seen:
-            continue
-        if sig != sig0:
-            seen.append(sig)
-        p = parts_of(best_case)
-        if ctx.violation("buffer result contradicts the distance specification: %s  [%s]" % (best_v[:160], json.dumps(sig, sort_keys=True)),
-                         dict({"kind": "failing-input", "stream": "buffer", "case": "B | %s | %s" % (p[1], p[2]), "signature": sig}, **describe(best_case, best_v)),
-                         signature=sig):
+    state = {"shrunk": 0}
+    if report_buffer_disagreements(ctx, exe, "buffer", r["disagreements"], seen, state):
+        found_input = True
+
+    # ---- (4) the same check on inputs whose buffer outline touches itself in single noded vertices (harness/c06contact.h): the
+    # PolygonBuilder branch for maximal edge rings through nodes of degree > 2, which generic-position inputs never reach
+    r = verif.run_stream(exe, "contact", ctx.seed, 480 if quick else 6400, ctx.work, shards=8, driver_exe=DRV, timeout=6000)
+    corr["contact"] = {"cases": r["cases"], "disagreements": len(r["disagreements"]) + r.get("more_disagreements", 0), "distribution": r["stats"]}
+    if r["error"]:
+        ctx.violation("stream contact could not run: " + r["error"], {"kind": "tie-broken", "correspondence": "contact", "detail": r["error"]}, nofail=True)
+    else:
+        touching = int(r["stats"].get("result_outline_touches_itself", 0))
+        corr["contact"]["results_whose_outline_touches_itself"] = touching
+        if report_buffer_disagreements(ctx, exe, "contact", r["disagreements"], seen, state):
             found_input = True
+
+    # ---- (5) ring assembly against Model/Buffer/Rings.lean
+    r = verif.run_stream(exe, "rings", ctx.seed, 8000 if quick else 150000, ctx.work, shards=8, driver_exe=DRV)
+    corr["rings"] = {"cases": r["cases"], "disagreements": len(r["disagreements"]) + r.get("more_disagreements", 0), "distribution": r["stats"]}
+    ctx.cov["samples"] += r.get("samples", [])[:1]
+    rings_note = None
+    if r["error"]:
+        ctx.violation("stream rings could not run: " + r["error"], {"kind": "tie-broken", "correspondence": "rings", "detail": r["error"]}, nofail=True)
+    elif r["disagreements"]:
+        broken.append("rings")
+        # the arrangement is a valid polygonal geometry: buffer(arrangement, 0) must return the same point set — replay the first few
+        # disagreeing arrangements through the buffer check to obtain a failing input of the property itself
+        for idx, case, exp, got in r["disagreements"][:12]:
+            tparts = [x for x in case.split(" | ") if x.startswith("T ")]
+            if not tparts:
+                continue
+            par = "mode=buf api=0 d=0000000000000000 q=8 cap=1 join=1 mitre=4014000000000000 ss=0 left=1 pv=1"
+            v, c2 = evaluate(exe, tparts[0][2:], par)
+            if v and (v.startswith("bad") or v.startswith("crash")):
+                sig = signature(c2, v) if v.startswith("bad") else {"mode": "buf", "clause": "crash"}
+                if sig in seen:
+                    found_input = True
+                    break
+                seen.append(sig)
+                if ctx.violation("buffer(g, 0) of a valid polygon arrangement whose rings touch in single vertices contradicts the distance specification "
+                                 "(ring assembly differs from Model/Buffer/Rings.lean: GEOS rings %s, model %s): %s  [%s]" % (exp[:120], got[:120], v[:160], json.dumps(sig, sort_keys=True)),
+                                 dict({"kind": "failing-input", "stream": "buffer", "case": "B | %s | %s" % (tparts[0][2:], par), "signature": sig,
+                                       "rings_case": case[:1500], "impl_rings": exp[:600], "model_rings": got[:600]}, **describe(c2, v)),
+                                 signature=sig):
+                    found_input = True
+                break
+        idx, case, exp, got = r["disagreements"][0]
+        rings_note = {"kind": "tie-broken", "correspondence": "rings", "case": case[:20000], "impl_rings": exp[:20000], "model_rings": got[:20000],
+                      "count": len(r["disagreements"]) + r.get("more_disagreements", 0)}
     ctx.cov["support_correspondence"] = corr
     if fillet_note is not None:
         ctx.violation("number of fillet vertices differs from Model/Buffer/Fillet.lean (t = %.9g quanta: code %s, model %s interior vertices)" %
                       (fillet_note["total_angle_in_quanta"], fillet_note["impl_interior_vertices"], fillet_note["model_interior_vertices"]),
                       fillet_note, nofail=not found_input)
+    if rings_note is not None:
+        ctx.violation("ring assembly (MaximalEdgeRing / MinimalEdgeRing / PolygonBuilder) differs from Model/Buffer/Rings.lean in %d cases: GEOS %s, model %s" %
+                      (rings_note["count"], rings_note["impl_rings"][:150], rings_note["model_rings"][:150]), rings_note, nofail=not found_input)
     if not proved:
         lf = getattr(ctx, "lean_failure", None) or {}
         ctx.violation("Lean obligations for C06 no longer check: " + "; ".join(str(i) for i in lf.get("items", [])[:5]),
@@ -418,7 +512,7 @@ def replay(ctx, path):
     verif.lake_build([DRV])
     rc = 0
     case = r.get("replay_case") or r.get("case")
-    if r.get("stream") == "buffer" or r.get("replay_case"):
+    if r.get("stream") in ("buffer", "contact") or r.get("replay_case"):
         p = parts_of(case)
         v, c2 = evaluate(exe, p[1], p[2])
         print("input  :", r.get("input_wkt", p[1][:300]))
@@ -431,6 +525,13 @@ def replay(ctx, path):
             if c2 and "st=ok" in c2:
                 rc = 1
         elif v != "ok":
+            rc = 1
+    elif r.get("correspondence") == "rings":
+        _, lines = verif.run_driver_lines("rings", [case], driver_exe=DRV)
+        print("case :", case[:600])
+        print("impl (recorded):", r.get("impl_rings"))
+        print("model:", lines[0] if lines else "?")
+        if (lines[0] if lines else "") != r.get("impl_rings"):
             rc = 1
     elif r.get("correspondence") in ("fillet", "params") or r.get("stream") == "params":
         stream = r.get("correspondence") or r.get("stream")
